@@ -16,7 +16,7 @@ exclusion of `dns.node` and the TTL/singleton rules of `dns.rdataset` — act as
 
 * convergence: `axfr_converges`, `axfr_converges_with_out_of_zone`, `ixfr_converges`, `ixfr_denotes`, `axfr_style_ixfr`, `up_to_date_noop`,
   `udp_ixfr`, `usetcp_retry_converges` (+ `query_of_zone`, `query_of_supplied`, `udp_outcome_final`);
-* atomicity: `error_implies_unapplied` (unconditional); `repair_changed_only_d11`,
+* atomicity: `error_implies_unapplied` (unconditional), `early_exit_leaves_zone`, `exit_never_commits`; `repair_changed_only_d11`,
   `before_repair_surplus_was_committed` (historical record);
 * `fault_unchanged`, as a family over accepted streams / well-formed responses (`IxfrAt`), every position,
   every chunking: `fault_truncate`, `fault_header` (+`_rcode`, `_question`), `fault_surplus_after_final_soa`,
@@ -185,6 +185,21 @@ the zone is exactly the zone before. -/
 theorem error_implies_unapplied (c : Config) (z0 : Zone) (msgs : List Msg) (e : XErr)
     (h : (run true c z0 msgs).err = some e) : (run true c z0 msgs).zone = z0 :=
   run_fix_atomic c z0 msgs e h
+
+/-- **Leaving early leaves the zone.**  `Inbound` driven directly as a context manager
+(`with Inbound(...) as inbound: for m in msgs: if inbound.process_message(m): break`), by any caller, fed
+any messages whatsoever, the block left normally (the caller just stops feeding — after the first SOA, in
+the middle of an AXFR, between or inside IXFR difference sequences), by an exception of the caller's own,
+or by one of `process_message`: unless a `process_message` call returned `True`, the zone afterwards is
+exactly the zone before — `__exit__` rolls the open transaction back, it never commits it. -/
+theorem early_exit_leaves_zone (c : Config) (z0 : Zone) (msgs : List Msg) (callerRaises : Bool)
+    (h : (drive true c z0 msgs callerRaises).done = false) : (drive true c z0 msgs callerRaises).zone = z0 :=
+  drive_fix_early c z0 msgs callerRaises h
+
+/-- … and `__exit__` itself: whatever state the machine is in and whether or not an exception is in flight,
+the committed zone is what it was (an open transaction is rolled back, not committed) -/
+theorem exit_never_commits (s : Inbound) (excInFlight : Bool) : s.exit excInFlight = s.zone :=
+  exit_zone s excInFlight
 
 /-- What commit 3feda1c changed, and nothing else: the loop without the look-ahead behaves identically,
 except that where the code now raises `FormError` with the zone untouched it may have raised that
@@ -979,6 +994,14 @@ example :
     let recs := ixfrStream exO exV0.soa (diffSteps exV0 [exV1, exV2])
     run true ⟨some exO, ixfrType, some 4294967294, true⟩ (zoneOf exO exV0) [⟨0, [], recs.take 3⟩] =
       ⟨some .FormError, zoneOf exO exV0⟩ := by
+  decide
+
+/-- the caller stops after 5 of the 10 records of the chain above (between the two difference sequences)
+and leaves the block normally: not done, zone untouched — although the working copy had changed -/
+example :
+    let recs := ixfrStream exO exV0.soa (diffSteps exV0 [exV1, exV2])
+    let d := drive true ⟨some exO, ixfrType, some 4294967294, false⟩ (zoneOf exO exV0) [⟨0, [], recs.take 2⟩, ⟨0, [], (recs.drop 2).take 3⟩] false
+    d.err = none ∧ d.done = false ∧ d.zone = zoneOf exO exV0 := by
   decide
 
 /-- an incoherent "version" (A next to a CNAME) is not a counterexample: `Coherent` refuses it -/
